@@ -163,6 +163,15 @@ def check_case(ctx: Ctx, case, rnd):
                 re = -sum(float(a) / t for a, t in zip(ss.tolist(), theta)) - sum(float(k) * math.log(t) for k, t in zip(counts.tolist(), theta))
                 if not close(re, want):
                     ctx.violation(f"C08:{model}:sufficient-statistics-density", f"{model}: -sum ss/theta - sum counts log theta = {re!r}, log density {want!r}", {"case": case})
+            else:
+                # a grid point on a coalescent time: the definition is two-valued, but statistics and density of the same object must
+                # charge the event to the same piece
+                own = float(dist().log_prob(heights))
+                re = -sum(float(a) / t for a, t in zip(ss.tolist(), theta)) - sum(float(k) * math.log(t) for k, t in zip(counts.tolist(), theta))
+                ctx.add("tie_cases_statistics_vs_density")
+                if not close(re, own):
+                    ctx.violation(f"C08:{model}:sufficient-statistics-density-tie", f"{model}, grid point on a coalescent time: -sum ss/theta - sum counts log theta = {re!r} "
+                                  f"but the same object's log density is {own!r}; sampling {samp} coalescent {coal} grid {grid}", {"case": case})
         except Exception as e:
             ctx.violation(f"C08:{model}:sufficient-statistics-raises", f"{type(e).__name__}: {e}", {"case": case})
 
